@@ -75,6 +75,8 @@ type Fault struct {
 	// Action: "error" (default: the call fails with ErrNo, nothing applied),
 	// "drop" (the connection dies: open transaction discarded, the call returns
 	// mysql.ErrInvalidConn, later calls driver.ErrBadConn),
+	// "badconn" (as drop, but the call returns driver.ErrBadConn - what go-sql-driver returns when writing
+	// the packet fails on a dead connection; database/sql then retries a pool statement on a fresh connection),
 	// "after" (the call is applied, then fails with ErrNo: lost reply),
 	// "cancel" (the caller's context is cancelled just before the call - Server.SetCancel - and the call is
 	// refused with context.Canceled without being applied; the connection stays usable, as go-sql-driver
